@@ -27,7 +27,7 @@ TECHNIQUE = 'exhaustive enumeration of data-file line sequences through the real
 LEVEL_TEXT = ('(a) every sequence of eligible/ineligible line kinds up to length 4 (quick) / 6 (thorough) and covering files up to 12 lines, with n_data_min, output selector, '
               'output_convolved, package format and fitting mode varied within 2 deviations: the output file must hold exactly one record per eligible line, in order, each '
               'canon-equal (NaN-aware, all fields) to Fitter.fit + keep on that line, with the metadata unchanged. (b) every sequence of up to 2 (quick) / 3 (thorough) calls out '
-              'of 18 post-processing operations on the same results, given as a path, one object, or a list: after every call the results handed in must be canon-identical to '
+              'of 19 post-processing operations (plus the two parameter plots, each tried in every input form) on the same results, given as a path, one object, or a list: after every call the results handed in must be canon-identical to '
               'before (file bytes included), every output must equal the output of the same call made first, and the three forms must give identical outputs.')
 LEVEL_NOTE = ('Photometry from a finite alphabet; records are compared through the canonical encoding (bit-wise on arrays). plot() is run with output_dir=None and its LineCollection '
               'segments are the observable. A fit() run that writes no record is outside the claim. The one-object form is compared on single-source results.')
@@ -74,7 +74,7 @@ def cases(ctx):
 
 
 def evidence_extra(ctx):
-    return {'bounds': '(a) all line sequences of length 1..%d over 4 kinds x configurations within %d deviations over %s + 6 longer files; (b) all sequences of <=%d of 18 operations x 3 input forms x {1,3} sources; (c) record sequences'
+    return {'bounds': '(a) all line sequences of length 1..%d over 4 kinds x configurations within %d deviations over %s + 6 longer files; (b) all sequences of <=%d of 19 operations x 3 input forms x {1,3} sources; (c) record sequences'
                       % (4 if ctx['tier'] == 'quick' else 6, 2 if ctx['tier'] == 'quick' else 3, {k: len(v) for k, v in AXES_A.items()}, 2 if ctx['tier'] == 'quick' else 3),
             'alphabet_digest': 'seed=%d' % ctx['seed']}
 
